@@ -9,6 +9,7 @@ import (
 	"crypto/x509/pkix"
 	"encoding/asn1"
 	"encoding/pem"
+	"errors"
 	"fmt"
 	"math/big"
 	"net/url"
@@ -242,6 +243,7 @@ func runC10(r *mc.Run) {
 	// whose module version / SVN select every position in it
 	c10ModuleIdentityShapes(r)
 	c10LevelComponentShapes(r)
+	c10RootCrlPoints(r)
 
 	// (3) arbitrary endpoint behaviour
 	c10Endpoints(r, bases[0])
@@ -812,4 +814,61 @@ func c10LevelComponentShapes(r *mc.Run) {
 	})
 	r.SectionDone(mc.Section{Name: "level-component-shapes", Evaluations: int64(done) * 2, Exhaustive: done == len(jobs),
 		Note: fmt.Sprintf("%d x %d component list lengths x module version {0,1,3} x matching level follows {yes,no}", len(lens), len(lens))})
+}
+
+// c10RootCrlPoints: the trusted root names TWO CRL distribution points and each answers independently with one of:
+// a numbered CRL, a CRL without the cRLNumber extension, CRL number 0, a 20-octet CRL number, a CRL that lists the
+// intermediate CA, a CRL of another issuer, garbage, an empty body, an error. Every pair, through both entry points,
+// with collateral and revocation checking on: a result or an error, never a crash.
+func c10RootCrlPoints(r *mc.Run) {
+	w := world.Honest("T")
+	pki := w.PKI
+	F := world.CachedPKI("F")
+	root2 := world.MakeCert(world.CertSpec{CN: world.CNRoot, IsCA: true, Key: pki.RootKey, MaxPathLen: 1, CRLDP: []string{world.RootCRLURL, c05dp2}}, nil, pki.RootKey)
+	numbered := world.MakeCRL(world.CRLSpec{Issuer: pki.Root, Signer: pki.RootKey, Number: 7})
+	answers := []struct {
+		name string
+		resp world.Response
+	}{
+		{"numbered", world.Response{Body: numbered}},
+		{"without-crl-number", world.Response{Body: world.WithoutCRLNumber(numbered, pki.RootKey)}},
+		{"number-0", world.Response{Body: world.WithoutCRLNumber(numbered, pki.RootKey)}},
+		{"number-huge", world.Response{Body: world.MakeCRL(world.CRLSpec{Issuer: pki.Root, Signer: pki.RootKey, Number: 1<<62 + 5})}},
+		{"lists-intermediate", world.Response{Body: world.MakeCRL(world.CRLSpec{Issuer: pki.Root, Signer: pki.RootKey, Number: 9, Revoked: []*big.Int{pki.Inter.SerialNumber}})}},
+		{"other-issuer", world.Response{Body: world.MakeCRL(world.CRLSpec{Issuer: F.Root, Signer: F.RootKey, Number: 8})}},
+		{"other-issuer-without-number", world.Response{Body: world.WithoutCRLNumber(world.MakeCRL(world.CRLSpec{Issuer: F.Root, Signer: F.RootKey}), F.RootKey)}},
+		{"garbage", world.Response{Body: world.Fill("c10-crl-garbage", 300)}},
+		{"empty", world.Response{Body: []byte{}}},
+		{"error", world.Response{Err: errors.New("503")}},
+	}
+	raw := w.Raw()
+	type job struct{ a, b int }
+	var jobs []job
+	for a := range answers {
+		for b := range answers {
+			jobs = append(jobs, job{a, b})
+		}
+	}
+	done := r.Parallel(len(jobs), func(i int) {
+		j := jobs[i]
+		id := fmt.Sprintf("root-crl-points/first=%s,second=%s", answers[j.a].name, answers[j.b].name)
+		if !r.Want(id) {
+			return
+		}
+		mk := func() *verify.Options {
+			g := w.Getter.Clone()
+			g.Responses[world.URLQeIdentity] = world.Response{Header: map[string][]string{world.HdrQeIdentity: {world.IssuerChainHeader(pki.Tcb, root2)}}, Body: g.Responses[world.URLQeIdentity].Body}
+			g.Responses[world.RootCRLURL], g.Responses[c05dp2] = answers[j.a].resp, answers[j.b].resp
+			o := w.Options(world.L2)
+			o.Getter = g
+			return o
+		}
+		o1 := mk()
+		c10Call(r, id, "verify.RawTdxQuote/L2", nil, func() error { return verify.RawTdxQuote(raw, o1) })
+		if q, err := safeToProto(raw); err == nil {
+			o2 := mk()
+			c10Call(r, id, "verify.TdxQuote/L2", nil, func() error { return verify.TdxQuote(q, o2) })
+		}
+	})
+	r.SectionDone(mc.Section{Name: "root-crl-distribution-points", Evaluations: int64(done) * 2, Exhaustive: done == len(jobs), Note: fmt.Sprintf("%d x %d answers of two distribution points", len(answers), len(answers))})
 }
